@@ -14,6 +14,7 @@ package query
 //     order-sensitive operations only on integer columns whose range is within [-9, +inf)
 
 import (
+	"fmt"
 	"math/rand"
 	randv2 "math/rand/v2"
 	"sort"
@@ -151,29 +152,55 @@ func vshowVals(vs []Value) string {
 var vsymbol = map[string]string{"is": "is", "ne": "isnt", "lt": "<", "le": "<=", "gt": ">", "ge": ">=",
 	"and": "and", "or": "or", "add": "+", "sub": "-", "mul": "*"}
 
-func (e *vexpr) src() string {
+// src renders the expression with as few parentheses as the grammar needs: the optimiser looks
+// for plain `column op constant` conjuncts (fixed values, index ranges, in-lists) and does not see
+// through parenthesised ones
+func (e *vexpr) src() string { return e.render(0) }
+
+// precedence levels: 1 ?:, 2 or, 3 and, 4 in / comparison, 5 + -, 6 *, 7 unary
+func (e *vexpr) render(parent int) string {
+	var s string
+	var prec int
 	switch e.op {
 	case "const":
 		if n, ok := e.val.ToInt(); ok && n < 0 {
-			return "(" + strconv.Itoa(n) + ")"
+			s, prec = strconv.Itoa(n), 7
+			if parent >= 5 {
+				return "(" + s + ")"
+			}
+			return s
 		}
 		return vlit(e.val)
 	case "col":
 		return e.col
 	case "not":
-		return "not (" + e.kids[0].src() + ")"
+		s, prec = "not "+e.kids[0].render(7), 7
 	case "neg":
-		return "-(" + e.kids[0].src() + ")"
+		s, prec = "-"+e.kids[0].render(8), 7
 	case "if":
-		return "((" + e.kids[0].src() + ") ? (" + e.kids[1].src() + ") : (" + e.kids[2].src() + "))"
+		s, prec = e.kids[0].render(2)+" ? "+e.kids[1].render(2)+" : "+e.kids[2].render(2), 1
 	case "in":
 		ss := make([]string, len(e.vals))
 		for i, v := range e.vals {
 			ss[i] = vlit(v)
 		}
-		return "(" + e.kids[0].src() + " in (" + strings.Join(ss, ", ") + "))"
+		s, prec = e.kids[0].render(5)+" in ("+strings.Join(ss, ", ")+")", 4
+	case "or":
+		s, prec = e.kids[0].render(2)+" or "+e.kids[1].render(2), 2
+	case "and":
+		s, prec = e.kids[0].render(3)+" and "+e.kids[1].render(3), 3
+	case "add", "sub":
+		// the right operand of - must not be re-associated
+		s, prec = e.kids[0].render(5)+" "+vsymbol[e.op]+" "+e.kids[1].render(6), 5
+	case "mul":
+		s, prec = e.kids[0].render(6)+" * "+e.kids[1].render(7), 6
+	default: // comparisons do not chain
+		s, prec = e.kids[0].render(5)+" "+vsymbol[e.op]+" "+e.kids[1].render(5), 4
 	}
-	return "((" + e.kids[0].src() + ") " + vsymbol[e.op] + " (" + e.kids[1].src() + "))"
+	if prec < parent || (prec == parent && prec != 2 && prec != 3 && prec != 5 && prec != 6) {
+		return "(" + s + ")"
+	}
+	return s
 }
 
 func (e *vexpr) toks(ids *vids) string {
@@ -345,6 +372,15 @@ type vdb struct {
 	ids    vids
 	r      *rand.Rand
 	maxops int
+	shapes map[string]int // generator choices, flushed into the trace histogram by close
+	tr     *lib.Trace
+}
+
+func (g *vdb) note(tag string) {
+	if g.shapes == nil {
+		g.shapes = map[string]int{}
+	}
+	g.shapes[tag]++
 }
 
 var vintPool = []string{"a", "b", "c", "k"}
@@ -361,7 +397,12 @@ func (g *vdb) randInt() int {
 	return g.r.Intn(7)
 }
 
-func (g *vdb) randStr() string { return vstrVals[g.r.Intn(len(vstrVals))] }
+func (g *vdb) randStr() string {
+	if g.r.Intn(4) == 0 {
+		return "" // stored as the empty encoding: index entries whose fields are all empty, '' selections
+	}
+	return vstrVals[g.r.Intn(len(vstrVals))]
+}
 
 func vmergeTyp(a, b vcol) vcol {
 	c := a
@@ -397,17 +438,21 @@ func newVdb(r *rand.Rand) *vdb {
 		{vintPool, {"d"}},
 		{vintPool, {"e", "d"}},
 		{{"p", "a"}, {"q"}},
+		{{"k", "b"}, {"d", "e"}},
 	}
 	for ti, sp := range specs {
 		t := &vtable{id: ti, name: "t" + strconv.Itoa(ti)}
+		// wide: all the columns, a key/index of 4+ columns over a two-value domain (deep index
+		// prefixes that match several rows); table 3 always has both string columns
+		wide := ti < 2 && r.Intn(3) == 0
 		// columns: a non-empty random subset of the pools
 		for _, c := range sp[0] {
-			if r.Intn(3) != 0 {
+			if wide || (ti != 3 && r.Intn(3) != 0) || (ti == 3 && r.Intn(3) == 0) {
 				t.cols = append(t.cols, vcol{name: c, typ: vtInt, lo: -3, hi: 105})
 			}
 		}
 		for _, c := range sp[1] {
-			if r.Intn(2) == 0 {
+			if wide || ti == 3 || r.Intn(2) == 0 {
 				t.cols = append(t.cols, vcol{name: c, typ: vtStr})
 			}
 		}
@@ -431,19 +476,37 @@ func newVdb(r *rand.Rand) *vdb {
 		for i, c := range t.cols {
 			names[i] = c.name
 		}
+		// a small value domain gives index prefixes that match several rows
+		small := wide || r.Intn(3) == 0
 		// keys
 		nrows := 1 + r.Intn(6)
+		if small {
+			nrows = 4 + r.Intn(9)
+		}
 		if r.Intn(8) == 0 {
 			nrows = 0
 		}
-		switch r.Intn(8) {
+		kcase := r.Intn(8)
+		if wide {
+			kcase = 1
+		}
+		switch kcase {
 		case 0:
 			t.keys = [][]string{{}}
 			nrows = r.Intn(2)
-		case 1, 2:
+		case 1, 2, 3:
 			if len(names) >= 2 {
+				// composite key of 2 to 5 columns
 				p := r.Perm(len(names))
-				t.keys = [][]string{{names[p[0]], names[p[1]]}}
+				nk := 2 + r.Intn(min(4, len(names)-1))
+				if wide {
+					nk = min(len(names), 4+r.Intn(2))
+				}
+				key := make([]string, nk)
+				for i := range key {
+					key[i] = names[p[i]]
+				}
+				t.keys = [][]string{key}
 				break
 			}
 			fallthrough
@@ -456,9 +519,22 @@ func newVdb(r *rand.Rand) *vdb {
 				}
 			}
 		}
-		if len(t.keys[0]) > 0 {
+		if ti == 3 && r.Intn(2) == 0 {
+			// string key, string index: index entries (index column + key) can be all empty
+			t.keys = [][]string{{"d"}}
+			t.indexes = [][]string{{"e"}}
+			if r.Intn(2) == 0 {
+				t.keys, t.indexes = [][]string{{"e"}}, [][]string{{"d"}}
+			}
+			if nrows == 0 {
+				nrows = 3
+			}
+		} else if len(t.keys[0]) > 0 {
 			for range r.Intn(3) {
 				n := 1 + r.Intn(min(2, len(names)))
+				if r.Intn(3) == 0 {
+					n = 1 + r.Intn(min(5, len(names)))
+				}
 				p := r.Perm(len(names))
 				ix := make([]string, n)
 				for i := range ix {
@@ -483,11 +559,41 @@ func newVdb(r *rand.Rand) *vdb {
 	rows:
 		for range nrows {
 			row := make([]Value, len(t.cols))
+			// sometimes repeat a row of an earlier table on the common columns
+			// (union / intersect / minus of different tables then have rows in common)
+			var share *vtable
+			var shareRow []Value
+			if ti > 0 && r.Intn(2) == 0 {
+				if o := g.tables[r.Intn(ti)]; len(o.rows) > 0 {
+					share, shareRow = o, o.rows[r.Intn(len(o.rows))]
+				}
+			}
 			for i, c := range t.cols {
-				if c.typ == vtInt {
+				switch {
+				case c.typ == vtInt && wide:
+					row[i] = IntVal(r.Intn(2))
+				case c.typ == vtInt && small:
+					row[i] = IntVal(r.Intn(3))
+				case wide:
+					row[i] = SuStr([]string{"", "a"}[r.Intn(2)])
+				case c.typ == vtInt:
 					row[i] = IntVal(g.randInt())
-				} else {
+				default:
 					row[i] = SuStr(g.randStr())
+				}
+				if share != nil {
+					for j, oc := range share.cols {
+						if oc.name == c.name && oc.typ == c.typ {
+							row[i] = shareRow[j]
+						}
+					}
+				}
+			}
+			if ti == 3 && len(t.rows) == 0 && r.Intn(2) == 0 {
+				for i, c := range t.cols {
+					if c.typ == vtStr {
+						row[i] = EmptyStr // index entries whose fields are all empty
+					}
 				}
 			}
 			var ks []string
@@ -533,7 +639,14 @@ func newVdb(r *rand.Rand) *vdb {
 	return g
 }
 
-func (g *vdb) close() { g.db.Close() }
+func (g *vdb) close() {
+	if g.tr != nil {
+		for k, n := range g.shapes {
+			g.tr.CountN("shape="+k, n)
+		}
+	}
+	g.db.Close()
+}
 
 // describe prints the schema and data (for F descriptions)
 func (g *vdb) describe() string {
@@ -571,6 +684,7 @@ func (g *vdb) describe() string {
 
 // emitTables writes the database as Q lines for the model
 func (g *vdb) emitTables(tr *lib.Trace) {
+	g.tr = tr
 	tr.Q("reset", "ok")
 	for _, t := range g.tables {
 		s := "table " + strconv.Itoa(t.id) + " "
@@ -725,6 +839,114 @@ func (g *vdb) boolExpr(cols []vcol, depth int) *vexpr {
 	x, _, _ := g.intExpr(cols, 0)
 	y, _, _ := g.intExpr(cols, 0)
 	return &vexpr{op: veqOps[g.r.Intn(2)], kids: []*vexpr{x, y}}
+}
+
+func (t *vtable) colIndex(name string) int {
+	for i, c := range t.cols {
+		if c.name == name {
+			return i
+		}
+	}
+	return -1
+}
+
+// indexWhere restricts a table on a prefix of one of its keys/indexes with values taken from
+// the data: equalities on the leading columns, an in-list (or equality) on the last one;
+// singleton: equalities on all columns of a key (at most one row)
+func (g *vdb) indexWhere(src *vnode, singleton bool) *vnode {
+	return g.indexWhereOn(src, singleton, nil, nil)
+}
+
+func (g *vdb) indexWhereOn(src *vnode, singleton bool, useKey []string, useRow []Value) *vnode {
+	t := src.tbl
+	if src.op != "table" || len(t.rows) == 0 {
+		return nil
+	}
+	var cands [][]string
+	for _, k := range t.keys {
+		if len(k) > 0 {
+			cands = append(cands, k)
+		}
+	}
+	if !singleton {
+		cands = append(cands, t.indexes...)
+	}
+	if len(cands) == 0 {
+		return nil
+	}
+	ix := cands[g.r.Intn(len(cands))]
+	if useKey != nil {
+		ix = useKey
+	}
+	n := len(ix)
+	if !singleton {
+		n = 1 + g.r.Intn(len(ix))
+		if len(ix) >= 4 && g.r.Intn(2) == 0 {
+			n = len(ix) - g.r.Intn(2) // the deep columns of a wide index
+		}
+	}
+	row := t.rows[g.r.Intn(len(t.rows))]
+	if useRow != nil {
+		row = useRow
+	}
+	var e *vexpr
+	for i := n - 1; i >= 0; i-- {
+		ci := t.colIndex(ix[i])
+		var c *vexpr
+		if !singleton && (i == n-1 || g.r.Intn(4) == 0) && g.r.Intn(4) != 0 {
+			// in-list: the row's value, other values of the column, sometimes an absent one
+			vals := []Value{row[ci]}
+			for range 1 + g.r.Intn(3) {
+				v := t.rows[g.r.Intn(len(t.rows))][ci]
+				if g.r.Intn(5) == 0 {
+					if t.cols[ci].typ == vtInt {
+						v = IntVal(g.randInt())
+					} else {
+						v = SuStr(g.randStr())
+					}
+				}
+				dup := false
+				for _, o := range vals {
+					if o.Equal(v) {
+						dup = true
+					}
+				}
+				if !dup {
+					vals = append(vals, v)
+				}
+			}
+			g.r.Shuffle(len(vals), func(i, j int) { vals[i], vals[j] = vals[j], vals[i] })
+			c = &vexpr{op: "in", kids: []*vexpr{vcolx(ix[i])}, vals: vals}
+		} else {
+			c = &vexpr{op: "is", kids: []*vexpr{vcolx(ix[i]), vconst(row[ci])}}
+		}
+		if e == nil {
+			e = c
+		} else {
+			e = &vexpr{op: "and", kids: []*vexpr{c, e}}
+		}
+	}
+	g.note(fmt.Sprintf("index-where-cols=%d", n))
+	return &vnode{op: "where", kids: []*vnode{src}, cols: src.cols, expr: e}
+}
+
+// emptyWhere restricts src to the rows where a string column that `other` does not have is ''
+// (or in a list with ''): the fixed value '' is what a missing column reads as
+func (g *vdb) emptyWhere(src, other *vnode) *vnode {
+	c, ok := g.pick(src.cols, func(c vcol) bool {
+		_, in := other.find(c.name)
+		return !in && c.typ == vtStr
+	})
+	if !ok {
+		return nil
+	}
+	var e *vexpr
+	if g.r.Intn(2) == 0 {
+		e = &vexpr{op: "is", kids: []*vexpr{vcolx(c.name), vconst(EmptyStr)}}
+	} else {
+		e = &vexpr{op: "in", kids: []*vexpr{vcolx(c.name)}, vals: []Value{EmptyStr, SuStr(vstrVals[1+g.r.Intn(len(vstrVals)-1)])}}
+	}
+	return &vnode{op: "where", kids: []*vnode{src}, cols: src.cols, expr: e}
 }
 
 // simpleCmp is a comparison of one column with a constant of its type
@@ -988,14 +1210,155 @@ var vunaryKinds = []string{"where", "where", "project", "project", "remove", "re
 	"summarize", "summarize", "summarize"}
 var vbinaryKinds = []string{"join", "join", "leftjoin", "times", "union", "union", "intersect", "minus"}
 
+// singletonJoin: a single-row source (key = constants) joined on its key with a source that has
+// several partners (1:n), under an operator that needs its input grouped / without duplicates
+func (g *vdb) singletonJoin() *vnode {
+	type cand struct {
+		x, y *vtable
+		key  []string
+		row  []Value
+		n    int
+	}
+	var best *cand
+	for _, xi := range g.r.Perm(len(g.tables)) {
+		for _, yi := range g.r.Perm(len(g.tables)) {
+			x, y := g.tables[xi], g.tables[yi]
+			if x == y {
+				continue
+			}
+			for _, key := range x.keys {
+				ok := len(key) > 0
+				for _, kc := range key {
+					if y.colIndex(kc) < 0 {
+						ok = false
+					}
+				}
+				if !ok {
+					continue
+				}
+				for _, row := range x.rows {
+					n := 0
+					for _, yrow := range y.rows {
+						m := true
+						for _, kc := range key {
+							if !row[x.colIndex(kc)].Equal(yrow[y.colIndex(kc)]) {
+								m = false
+							}
+						}
+						if m {
+							n++
+						}
+					}
+					if best == nil || n > best.n {
+						best = &cand{x, y, key, row, n}
+					}
+				}
+			}
+		}
+	}
+	if best == nil {
+		return nil
+	}
+	g.note(fmt.Sprintf("singleton-partners=%d", min(best.n, 3)))
+	xn := &vnode{op: "table", tbl: best.x, cols: append([]vcol{}, best.x.cols...)}
+	b := &vnode{op: "table", tbl: best.y, cols: append([]vcol{}, best.y.cols...)}
+	a := g.indexWhereOn(xn, true, best.key, best.row)
+	if a == nil || !g.valid(a) {
+		return nil
+	}
+	// the other source keeps, of the common columns, only the key columns
+	var drop []string
+	for _, c := range b.cols {
+		if _, in := a.find(c.name); in && !vhasStr(best.key, c.name) {
+			drop = append(drop, c.name)
+		}
+	}
+	if len(drop) > 0 && len(drop) < len(b.cols) && g.r.Intn(4) != 0 {
+		p := &vnode{op: "remove", kids: []*vnode{b}, list: drop}
+		for _, c := range b.cols {
+			if !vhasStr(drop, c.name) {
+				p.cols = append(p.cols, c)
+			}
+		}
+		if g.valid(p) {
+			b = p
+		}
+	}
+	kind := []string{"leftjoin", "leftjoin", "join"}[g.r.Intn(3)]
+	j := g.binary(a, b, kind)
+	if j == nil || !g.valid(j) {
+		return nil
+	}
+	g.note("singleton-" + kind)
+	// project / remove on the other source's columns (duplicates), summarize by them, or as is
+	var right []vcol
+	for _, c := range j.cols {
+		if _, in := a.find(c.name); !in {
+			right = append(right, c)
+		}
+	}
+	switch k := g.r.Intn(5); {
+	case k < 2 && len(right) > 0:
+		list := g.subset(right, 1)
+		n := &vnode{op: "project", kids: []*vnode{j}, list: list}
+		for _, name := range list {
+			c, _ := j.find(name)
+			n.cols = append(n.cols, c)
+		}
+		return n
+	case k < 4:
+		if n := g.unary(j, []string{"summarize", "project", "remove"}[g.r.Intn(3)]); n != nil {
+			return n
+		}
+	}
+	return j
+}
+
 // build generates a query with at most budget operators; every node is checked by parsing it
 func (g *vdb) build(budget int) *vnode {
 	if budget <= 0 || g.r.Intn(6) == 0 {
-		return g.tableNode()
+		t := g.tableNode()
+		if g.r.Intn(3) == 0 {
+			// a restriction on a key/index prefix (index range selection, in-lists, points)
+			if w := g.indexWhere(t, g.r.Intn(4) == 0); w != nil && g.valid(w) {
+				g.note("index-where")
+				return w
+			}
+		}
+		return t
 	}
 	for range 6 {
 		var n *vnode
-		if budget >= 2 && g.r.Intn(6) == 0 {
+		if k := g.r.Intn(16); k == 0 && budget >= 2 {
+			n = g.singletonJoin()
+		} else if k == 1 && budget >= 2 {
+			// union/intersect/minus of sources with different columns where the column the other
+			// side lacks is restricted to '' (what the missing column reads as)
+			a, b0 := g.tableNode(), g.tableNode()
+			if g.r.Intn(2) == 0 {
+				// the same table without one of its string columns: every row has a counterpart
+				if c, ok := g.pick(b0.cols, func(c vcol) bool { return c.typ == vtStr }); ok && len(b0.cols) > 1 {
+					a = &vnode{op: "remove", kids: []*vnode{b0}, list: []string{c.name}}
+					for _, x := range b0.cols {
+						if x.name != c.name {
+							a.cols = append(a.cols, x)
+						}
+					}
+					if !g.valid(a) {
+						a = g.tableNode()
+					}
+				}
+			}
+			if b := g.emptyWhere(b0, a); b != nil && g.valid(b) {
+				if g.r.Intn(2) == 0 {
+					a, b = b, a
+				}
+				n = g.binary(a, b, []string{"union", "union", "intersect", "minus"}[g.r.Intn(4)])
+				if n != nil {
+					g.note("empty-fixed-" + n.op)
+				}
+			}
+		} else if budget >= 2 && g.r.Intn(6) == 0 {
 			// an operator directly above a summarize (the rewrites past a summarize)
 			if s := g.unary(g.build(budget-2), "summarize"); s != nil && g.valid(s) {
 				n = g.unary(s, []string{"where", "where", "project", "remove", "rename"}[g.r.Intn(5)])
